@@ -411,7 +411,7 @@ def ok4(model):
                    'positions on every path (0-based map + 1, also for the --unkn dummy and for '
                    'every multi-language part); the shell converts a map entry back with - 1 '
                    'and computes lengths as last - first + 1', floor=4)
-    f = model.func('tex2txt.tex2txt')
+    f = model.inl().func('tex2txt.tex2txt')
     # single-language path: the returned position list is `[n + 1 for n in X]` where X has base 0
     from ..rdefs import reachdefs
     rd = reachdefs(f)
@@ -503,7 +503,11 @@ def ok4(model):
                                         and not x.args) for x in ast.walk(p.iter)):
                                 cond = True     # only a part of the collection is visited
                         if isinstance(p, ast.If):
-                            cond = True
+                            t_ = p.test.operand if isinstance(p.test, ast.UnaryOp) and isinstance(p.test.op, ast.Not) \
+                                else p.test
+                            # the mode switch itself (a parameter of tex2txt) is not a condition on the parts
+                            if not (isinstance(t_, ast.Name) and t_.id in f.params):
+                                cond = True
                         p = p._parent
                     if loops == 2 and not cond:
                         ml_ok = True
